@@ -74,7 +74,8 @@ func main() {
 		pprof.StartCPUProfile(f)
 		defer pprof.StopCPUProfile()
 	}
-	debug.SetGCPercent(1500)
+	debug.SetGCPercent(400)
+	debug.SetMemoryLimit(7 << 30) // soft limit: the collector works harder instead of the process being OOM-killed
 	go func() {
 		for range logger.Messages {
 		}
